@@ -355,14 +355,13 @@ def rule_dispatch_scheduled(ctx: Ctx) -> None:
             ctx.check(okclock, "C13.3", "clock advanced to the job's time before it starts (never backwards)", fn, pu,
                       "guarded store to _last_dt between pop and push",
                       "no monotone clock update between popping a job and starting it")
-    # fault isolation of jobs
-    ex = ctx.func(f"{DISP}.EventDispatcher._execute_scheduled")
-    aw = [n for n in C.walk_shallow(ex.node) if isinstance(n, ast.Await) and isinstance(n.value, ast.Call)
-          and A.call_name(n.value) == "job"]
-    ctx.floor("C13.3", "await job() in _execute_scheduled", len(aw), 1)
-    for a in aw:
-        ok, why = isolated(a)
-        ctx.check(ok, "C13.3", "job exception is contained", ex, a, why, why)
+    # fault isolation of jobs: wherever the user's job callable is invoked, and wherever its awaitable is awaited
+    sites = job_invocations(ctx)
+    ctx.floor("C13.3", "invocations of the scheduled job callable", len(sites), 1)
+    for f2, node, what in sites:
+        ok, why = isolated(node)
+        ctx.check(ok, "C13.3", f"job exception is contained ({what})", f2, node, why,
+                  why + ": a job that fails takes the dispatch loop down and the remaining jobs and events never run")
     # order in the main loop
     loop = ctx.func(f"{DISP}.BacktestingDispatcher._dispatch_loop")
     gl = ctx.cfg(loop)
@@ -390,6 +389,34 @@ def rule_dispatch_scheduled(ctx: Ctx) -> None:
                 if isinstance(s.target, ast.Name) and s.target.id == arg.id and c.lineno < s.stmt.lineno < ev.lineno:
                     ctx.bad("C13.3", "same bound for jobs and events", loop, s.stmt,
                             f"{arg.id} reassigned between the two dispatch steps")
+
+
+def job_invocations(ctx: Ctx):
+    """(function, node, what) for every place in the dispatcher module where a scheduled job callable is called or the
+    awaitable it returned is awaited.  Job callables are the second element popped from the scheduler queue and
+    parameters annotated SchedulerJob / named 'job'."""
+    out = []
+    for q, fn in ctx.repo.funcs.items():
+        if not q.startswith(DISP + "."):
+            continue
+        jobs = set()
+        for a in fn.node.args.args if hasattr(fn.node, "args") else []:
+            if a.arg == "job" or (a.annotation is not None and "SchedulerJob" in ast.unparse(a.annotation)):
+                jobs.add(a.arg)
+        for s_ in A.stores(fn):
+            if isinstance(s_.node, ast.Assign) and isinstance(s_.node.value, ast.Call) \
+                    and (A.call_name(s_.node.value) or "").endswith("_scheduler_queue.pop") \
+                    and isinstance(s_.node.targets[0], ast.Tuple) and len(s_.node.targets[0].elts) == 2 \
+                    and isinstance(s_.node.targets[0].elts[1], ast.Name):
+                jobs.add(s_.node.targets[0].elts[1].id)
+        if not jobs:
+            continue
+        for n in A.body_nodes(fn, shallow=False):
+            if isinstance(n, ast.Call) and isinstance(n.func, ast.Name) and n.func.id in jobs:
+                out.append((fn, n, f"call {n.func.id}() in {fn.name}"))
+            elif isinstance(n, ast.Await) and isinstance(n.value, ast.Name) and n.value.id in jobs:
+                out.append((fn, n, f"await {n.value.id} in {fn.name}"))
+    return out
 
 
 def isolated(node: ast.AST) -> Tuple[bool, str]:
